@@ -5,7 +5,7 @@ import warnings
 
 import numpy as np
 
-from lib.core import import_darsia
+from lib.core import MachineryError, import_darsia
 from checks.wcommon import exponent
 
 LEVEL = "model_checking"
@@ -45,7 +45,7 @@ def rand_arr(rng, shape, dtype):
     return np.array([rng.randint(0, 9) for _ in range(int(np.prod(shape)))], dtype=dtype).reshape(shape)
 
 
-def events(darsia, rng, shapes, quick):
+def events(darsia, rng, shapes, quick, arrangements):
     ev = []
     dtypes = ["float64", "float32"]
     # uniform refinement / coarsening
@@ -147,35 +147,51 @@ def events(darsia, rng, shapes, quick):
         ratio = integral(out) / (integral(img) * height) if integral(img) > 0 else 1.0
         ev.append({"tid": f"extrude:{i}", "op": "extrude", "shape": list(s), "num": num, "data": ints(a), "res": ints(out.img), "intratio": int(round(1e6 * ratio)),
                    "dims_kept": int(np.allclose(out.dimensions[1:], img.dimensions) and abs(out.dimensions[0] - height) < 1e-12)})
-    # superposition on a common voxel grid
-    for i in range(6 if quick else 60):
-        n = rng.randint(1, 4)
+    # superposition on a common voxel grid: the arrangement along one image axis is one of the TLC-enumerated ones
+    # (MC_Superpose: every list of up to three intervals, so a later image may overhang the earlier ones on both
+    # sides), the other axis takes a second enumerated arrangement of the same length
+    by_len = {}
+    for a in arrangements:
+        by_len.setdefault(len(a), []).append(a)
+    sel = []
+    for n, lst in sorted(by_len.items()):
+        sel += lst if (not quick or n <= 2) else rng.sample(lst, min(len(lst), 70))
+    for i, arr in enumerate(sel):
+        n = len(arr)
+        other = rng.choice(by_len[n])
+        ax = i % 2
         h = rng.choice([[1.0, 1.0], [0.5, 0.25], [2.0, 0.5]])
-        imgs, recs = [], []
-        # any image of the list may be the one that touches the low corner of the canvas (a later image may overhang
-        # the earlier ones on both sides of an axis)
-        offs = [[rng.randint(0, 3), rng.randint(0, 3)] for _ in range(n)]
-        mins = [min(o[0] for o in offs), min(o[1] for o in offs)]
-        offs = [[o[0] - mins[0], o[1] - mins[1]] for o in offs]
-        if rng.random() < 0.3:
-            offs = [[0, 0]] * n
-        shp0 = (rng.randint(1, 4), rng.randint(1, 4))
+        same = all(tuple(x) == tuple(arr[0]) for x in arr) and rng.random() < 0.5
+        imgs, recs, offs = [], [], []
         for j in range(n):
-            shp = shp0 if offs == [[0, 0]] * n else (rng.randint(1, 4), rng.randint(1, 4))
+            o_l = [arr[j], arr[j] if same else other[j]]
+            if ax == 1:
+                o_l = o_l[::-1]
+            off = [o_l[0][0], o_l[1][0]]
+            shp = (o_l[0][1], o_l[1][1])
             a = rand_arr(rng, shp, "float64")
-            # voxel (0,0) of image j sits at canvas voxel offs[j]: origin shifted by off * h (rows go down: y decreases)
-            origin = [10.0 + offs[j][1] * h[1], 20.0 - offs[j][0] * h[0]]
+            # voxel (0,0) of image j sits at canvas voxel off: origin shifted by off * h (rows go down: y decreases)
+            origin = [10.0 + off[1] * h[1], 20.0 - off[0] * h[0]]
             imgs.append(image(darsia, a, h, origin=origin))
-            recs.append({"shape": list(shp), "off": offs[j], "data": ints(a)})
+            recs.append({"shape": list(shp), "off": off, "data": ints(a)})
+            offs.append(off)
         cshape = [max(r["off"][0] + r["shape"][0] for r in recs), max(r["off"][1] + r["shape"][1] for r in recs)]
-        e = {"tid": f"superpose:{i}", "op": "superpose", "imgs": recs, "cshape": cshape, "raised": 0, "res": [], "rshape": [], "dims_kept": 0, "n": n, "samegrid": int(offs == [[0, 0]] * n)}
+        low = [min(o[0] for o in offs), min(o[1] for o in offs)]
+        e = {"tid": f"superpose:{i}", "op": "superpose", "imgs": recs, "cshape": cshape, "raised": 0, "res": [], "rshape": [], "dims_kept": 0, "n": n,
+             "samegrid": int(all(o == offs[0] for o in offs) and len({tuple(r["shape"]) for r in recs}) == 1)}
+        if low != [0, 0]:
+            # the arrangement of the second axis need not touch the low end: shift the records (the canvas starts at the lowest image)
+            for r in recs:
+                r["off"] = [r["off"][0] - low[0], r["off"][1] - low[1]]
+            e["cshape"] = cshape = [cshape[0] - low[0], cshape[1] - low[1]]
         try:
             with warnings.catch_warnings():
                 warnings.simplefilter("ignore")
                 out = darsia.superpose(imgs)
             e["res"] = ints(out.img)
             e["rshape"] = list(out.img.shape)
-            e["dims_kept"] = int(np.allclose(out.dimensions, [cshape[0] * h[0], cshape[1] * h[1]]) and np.allclose(np.asarray(out.origin), [10.0, 20.0]))
+            e["dims_kept"] = int(np.allclose(out.dimensions, [cshape[0] * h[0], cshape[1] * h[1]])
+                                 and np.allclose(np.asarray(out.origin), [10.0 + low[1] * h[1], 20.0 - low[0] * h[0]]))
         except Exception as ex:  # noqa
             e["raised"] = 1
             e["error"] = repr(ex)[:160]
@@ -187,11 +203,20 @@ def run(ck, replay=None):
     ck.sany("MC_Resample", "Trace_Resample")
     r = ck.model_check("MC_Resample", "MC_Resample.cfg", workers=4)
     shapes = sorted({tuple(p[1]) for p in r.printed("SCN")})
+    ck.sany("MC_Superpose")
+    rs = ck.model_check("MC_Superpose", "MC_Superpose.cfg", workers=1)
+    arrangements = [[tuple(x) for x in p[1]] for p in rs.printed("SUP")]
+    if not any(len(a) >= 2 and any(a[k][0] < min(x[0] for x in a[:k]) and a[k][0] + a[k][1] > max(x[0] + x[1] for x in a[:k]) for k in range(1, len(a)))
+               for a in arrangements):
+        raise MachineryError("no enumerated arrangement has a later image overhanging the earlier ones on both sides (vacuity guard)")
+    reg = ck.tlc("MC_Superpose", "MC_Superpose_mutant.cfg", workers=1, expect_ok=False, label="regression-model")
+    if "ImplCanvasIsBounding" not in reg.violated:
+        raise MachineryError("Superpose model no longer rejects the one-end-per-image bounding box (vacuity guard)")
     darsia = import_darsia()
     rng = random.Random(ck.seed)
     quick = ck.tier == "quick"
     shapes = shapes + [(5, 3), (6, 6), (3, 5)] + ([] if quick else [(rng.randint(1, 8), rng.randint(1, 8)) for _ in range(20)])
-    ev = events(darsia, rng, shapes, quick)
+    ev = events(darsia, rng, shapes, quick, arrangements)
     bad = ck.validate("Trace_Resample", "Trace.cfg", ev, weight=lambda e: 5 + len(e.get("res", [])), budget=6000)
     for b in bad:
         e = b["event"]
